@@ -590,7 +590,15 @@ func checkC15(e *Engine, r *Report) {
 			}
 			okSt = okSt && del
 		}
-		r.Check(okSt, "DestroyAccount › every storage key deleted", e.Pos(da.Pos()), "ForEachStorage(addr, key → SetState(key, nil); continue)", "an exit of DestroyAccount keeps storage entries (iteration stopped early, not every key deleted, or not executed)")
+		if okSt {
+			_, probs := iterationHelpersComplete(e)
+			for _, pr := range probs {
+				if strings.Contains(pr, "ForEachStorage") {
+					okSt = false
+				}
+			}
+		}
+		r.Check(okSt, "DestroyAccount › every storage key deleted", e.Pos(da.Pos()), "ForEachStorage(addr, key → SetState(key, nil); continue)", "an exit of DestroyAccount keeps storage entries (iteration stopped early, not every key deleted, not executed, or Keeper.ForEachStorage filters entries before the callback — e.g. skips cleared slots, which are real store entries here)")
 	})
 
 	r.Rule("R6", "CENSUS", "the StateDB debits accounts only through bank.SendCoinsFromAccountToModule (which enforces vesting locks) paired with BurnCoins; no other bank mutator is called from package vm", 4, func() {
